@@ -451,9 +451,18 @@ impl ECaseSpec {
     }
 }
 
+fn nested_bounds(tier: &str) -> (crate::sem_flat::FlatOpts, Option<usize>, usize, Option<usize>) {
+    use crate::sem_flat::FlatOpts;
+    if tier == "quick" {
+        (FlatOpts { max_members: 3, max_ghosts: 1, max_depth: 2, update: true, ..FlatOpts::DEF }, Some(3), 2, Some(3))
+    } else {
+        (FlatOpts { max_members: 3, max_ghosts: 1, max_depth: 3, update: true, ..FlatOpts::DEF }, Some(5), 3, Some(5))
+    }
+}
+
 pub fn run(tier: &str) -> i32 {
     let rep = Report::new("C08", tier, "model_checking");
-    rep.set_rule("part A (placement, structural): each of the 24 trait-instruction names x {named struct, enum with ghosts, struct with bare parent + ghosts} x every subset of {attribute, impl_attribute, inner_attribute, vars} in EVERY order x terminal {none, ..update, return} + a parameterless instruction for a second counterpart: in every impl the instruction produces (M_appl) the attribute is an outer attribute of the fn, the impl_attribute of the impl, the inner_attribute an inner attribute at the head of the fn body, each exactly once and nowhere else; impls of the other instruction carry none. Part B (behaviour through rustc + execution): per direction group {from, into, into_existing} x {vars or not} x {none, ..update, return} x {bare #[parent] member or not}, all 12 kinds: vars expressions call a logging helper - the log must be [vz, va, member expression] (each once, in DECLARATION order - the names are declared in non-alphabetical order -, vars first) and member expressions read both; ..base() supplies exactly the leaves no member provides; return make(M) is the whole result (*other == make(M) for into_existing); the same for an enum host (tuple / named variant): vars are evaluated once before the generated match - also when the unit variant is converted -, quick return replaces the match. states = distinct inputs / test modules");
+    rep.set_rule("part A (placement, structural): each of the 24 trait-instruction names x {named struct, enum with ghosts, struct with bare parent + ghosts} x every subset of {attribute, impl_attribute, inner_attribute, vars} in EVERY order x terminal {none, ..update, return} + a parameterless instruction for a second counterpart: in every impl the instruction produces (M_appl) the attribute is an outer attribute of the fn, the impl_attribute of the impl, the inner_attribute an inner attribute at the head of the fn body, each exactly once and nowhere else; impls of the other instruction carry none. Part B (behaviour through rustc + execution): per direction group {from, into, into_existing} x {vars or not} x {none, ..update, return} x {bare #[parent] member or not}, all 12 kinds: vars expressions call a logging helper - the log must be [vz, va, member expression] (each once, in DECLARATION order - the names are declared in non-alphabetical order -, vars first) and member expressions read both; ..base() supplies exactly the leaves no member provides; return make(M) is the whole result (*other == make(M) for into_existing); the same for an enum host (tuple / named variant): vars are evaluated once before the generated match - also when the unit variant is converted -, quick return replaces the match; `update-child` / `update-parent`: the flattening cases of C03 (#[child] + #[child_parents], parameterised #[parent(..)]) with `..Default::default()` on the conversions and one more field in EVERY struct of the result - the nested ones included - that only the update expression can supply (0 after Into / From, untouched by IntoExisting). states = distinct inputs / test modules");
     rep.assume("the statement's `on every impl the instruction produces` is read with M_appl; bare #[parent] is combined with vars only (its combination with ..update / return is KF-C17-01)");
     let caps = Caps::from_env(if tier == "quick" { 200.0 } else { 1200.0 });
     run_space(&Placement, None, &caps, &rep);
@@ -466,6 +475,17 @@ pub fn run(tier: &str) -> i32 {
         items.lock().unwrap().push(BItem { space: "behaviour-enum".into(), choices: ch.to_vec(), tags: c.tags.clone(), inputs: vec![c.item_text()], module: c.render_module(), nontrivial: true });
     });
     rep.add_stats("behaviour-enum", "full", &st);
+    // ..update and the NESTED literals a conversion builds (seed C08-09): flattening cases whose counterpart structs -
+    // every nested one included - have a field that only the update expression can supply
+    let (fo, fb, pl, pb) = nested_bounds(tier);
+    let st = crate::explore::explore2(|ctx| crate::sem_flat::gen_child(ctx, &fo), fb, None, &caps, |ch, c| {
+        items.lock().unwrap().push(BItem { space: "update-child".into(), choices: ch.to_vec(), tags: c.tags.clone(), inputs: vec![c.item("S", true).render()], module: c.render_module(), nontrivial: true });
+    });
+    rep.add_stats("update-child", &fb.map(|b| format!("dev({})", b)).unwrap_or("full".into()), &st);
+    let st = crate::explore::explore2(|ctx| crate::sem_flat::gen_parent_upd(ctx, pl), pb, None, &caps, |ch, c| {
+        items.lock().unwrap().push(BItem { space: "update-parent".into(), choices: ch.to_vec(), tags: c.tags.clone(), inputs: vec![c.item("S", true).render()], module: c.render_module(), nontrivial: true });
+    });
+    rep.add_stats("update-parent", &pb.map(|b| format!("dev({})", b)).unwrap_or("full".into()), &st);
     if let Err(e) = run_items("C08", items.into_inner().unwrap(), &rep, BOpts { no_std: false, features: "", name: "c08".into(), keep: std::env::var("VERIF_KEEP").is_ok() }) {
         eprintln!("MACHINERY-ERROR: {}", e);
         return 2;
@@ -479,21 +499,45 @@ pub fn replay(f: &Failure) -> i32 {
     }
     let mut obs = vec![];
     for round in 0..2 {
-        let item = if f.space == "behaviour-enum" {
-            match replay_one(gen_e, &f.choices) {
-                (Some(c), full) if full == f.choices && c.item_text() == f.input => BItem { space: f.space.clone(), choices: full, tags: c.tags.clone(), inputs: vec![c.item_text()], module: c.render_module(), nontrivial: true },
-                _ => {
-                    eprintln!("MACHINERY-ERROR: cannot re-render {:?}", f.choices);
-                    return 2;
-                }
+        let mk = |r: Option<(Vec<String>, String, String)>, full: Vec<u32>| -> Option<BItem> {
+            match r {
+                Some((tags, input, module)) if full == f.choices && input == f.input => Some(BItem { space: f.space.clone(), choices: full, tags, inputs: vec![input], module, nontrivial: true }),
+                _ => None,
             }
-        } else {
-            match replay_one(gen_b, &f.choices) {
-                (Some(c), full) if full == f.choices && c.item_text() == f.input => BItem { space: "behaviour".into(), choices: full, tags: c.tags.clone(), inputs: vec![c.item_text()], module: c.render_module(), nontrivial: true },
-                _ => {
-                    eprintln!("MACHINERY-ERROR: cannot re-render {:?}", f.choices);
-                    return 2;
+        };
+        let item = match f.space.as_str() {
+            "behaviour-enum" => {
+                let (c, full) = replay_one(gen_e, &f.choices);
+                mk(c.map(|c| (c.tags.clone(), c.item_text(), c.render_module())), full)
+            }
+            "update-child" => {
+                let mut got = None;
+                for t in ["quick", "thorough"] {
+                    let fo = nested_bounds(t).0;
+                    let (c, full) = replay_one(|ctx| crate::sem_flat::gen_child(ctx, &fo), &f.choices);
+                    got = got.or(mk(c.map(|c| (c.tags.clone(), c.item("S", true).render(), c.render_module())), full));
                 }
+                got
+            }
+            "update-parent" => {
+                let mut got = None;
+                for t in ["quick", "thorough"] {
+                    let pl = nested_bounds(t).2;
+                    let (c, full) = replay_one(|ctx| crate::sem_flat::gen_parent_upd(ctx, pl), &f.choices);
+                    got = got.or(mk(c.map(|c| (c.tags.clone(), c.item("S", true).render(), c.render_module())), full));
+                }
+                got
+            }
+            _ => {
+                let (c, full) = replay_one(gen_b, &f.choices);
+                mk(c.map(|c| (c.tags.clone(), c.item_text(), c.render_module())), full)
+            }
+        };
+        let item = match item {
+            Some(i) => i,
+            None => {
+                eprintln!("MACHINERY-ERROR: cannot re-render {:?}", f.choices);
+                return 2;
             }
         };
         let rep = Report::new("C08", "quick", "model_checking");
